@@ -30,6 +30,11 @@ def transcriptOps (H : Hashes) : Transcript → List String → List Felt → Op
       (felts? (o.drop 2).toString).bind fun v => transcriptOps H (t.readFeltVector H v) os acc
     else if o.startsWith "u:" then
       (nat? (o.drop 2).toString).bind fun v => transcriptOps H (t.readU64 H v) os acc
+    else if o.startsWith "c:" || o.startsWith "t:" then
+      -- `vector_commit` / `table_commit`: the root is absorbed as one field element (the config does not enter the transcript)
+      match ((o.drop 2).toString.splitOn ":") with
+      | root :: _ => (felt? root).bind fun v => transcriptOps H (t.readFelt H v) os acc
+      | [] => none
     else none
 
 def unit (_ : Unit) : String := ""
